@@ -312,6 +312,13 @@ def gen_config(rng, profile='C01'):
                                  'velx', 'vely', 'velz'], 0.2, 0.9)
         if g.chance(0.25):
             cfg['fluid'] = []
+        # "any key can be supplied": the energy density instead of (or next
+        # to) rest-mass density / internal energy; a stress-energy tensor or
+        # Psi4 given directly
+        cfg['fluid_alt'] = g.weighted([('none', 6), ('rho+eps', 1),
+                                       ('rho+rho0', 1), ('rho', 1)])
+        cfg['extra_inputs'] = g.subset(['Tdown4', 'Weyl_Psi4'], 0.0, 0.5) \
+            if g.chance(0.25) else []
         cfg['metric_inputs'] = g.subset(
             ['alpha', 'dtalpha', 'betaup3', 'dtbetaup3', 'gammadown3',
              'Kdown3'], 0.5, 1.0, nonempty=True)
@@ -319,6 +326,7 @@ def gen_config(rng, profile='C01'):
     for k in ('gammadown3', 'Kdown3', 'betaup3', 'dtbetaup3'):
         how[k] = g.weighted([('tensor', 4), ('components', 3), ('both', 1)])
     cfg['how'] = how
+    cfg['give_gdown4'] = cls in ('HOM', 'ON') and g.chance(0.2)
     # inputs that may be omitted because their true value is the default
     omit = []
     if cls in ('HOM', 'ON') and variant == 'zero_shift' and g.chance(0.6):
@@ -395,6 +403,31 @@ class World:
                       if k in cfg['metric_inputs']}
             for k in cfg['fluid']:
                 inputs[k] = fluid[k]
+            alt = cfg.get('fluid_alt', 'none')
+            if alt != 'none':
+                for k in ('rho0', 'eps'):
+                    inputs.pop(k, None)
+                rho = fluid['rho0'] * (1 + fluid['eps'])
+                inputs['rho'] = rho
+                if alt == 'rho+eps':
+                    inputs['eps'] = fluid['eps']
+                elif alt == 'rho+rho0':
+                    inputs['rho0'] = fluid['rho0']
+            X, Y, Z = st.coords(p)
+            if 'Tdown4' in cfg.get('extra_inputs', []):
+                T = np.zeros((4, 4) + X.shape)
+                for a in range(4):
+                    for b in range(a, 4):
+                        T[a, b] = T[b, a] = 0.02 * np.sin(
+                            0.3 * X + 0.1 * (a + 1) * Y - 0.2 * (b + 1) * Z) \
+                            + (0.5 if a == b else 0.0)
+                inputs['Tdown4'] = T
+            if 'Weyl_Psi4' in cfg.get('extra_inputs', []):
+                inputs['Weyl_Psi4r'] = 0.01 * np.cos(0.2 * X - 0.3 * Y)
+                inputs['Weyl_Psi4i'] = 0.01 * np.sin(0.1 * Z + 0.2 * X)
+        if cfg.get('give_gdown4') and self.exact is not None:
+            inputs = dict(inputs)
+            inputs['gdown4'] = np.array(self.exact['g'])   # redundant, exact
         self.raw = inputs
         data = st.present(inputs, cfg['how'])
         for k in cfg['omit']:
@@ -791,6 +824,14 @@ class Engine:
             elif cs is not None and checksum(rel.data[k]) != cs:
                 add(f'frozen_altered:{k}', f'frozen entry {k!r} changed '
                     'contents')
+        # ... and every computed entry that is cached has an age (otherwise it
+        # could never be evicted): inputs that were stored directly and never
+        # read are the only entries without one
+        ageless = sorted(set(rel.data) - set(rel.last_accessed)
+                         - set(self.world.data) - set(frozen))
+        if ageless:
+            add('cached_entry_without_age', 'cached computed entries '
+                f'without an entry in last_accessed: {ageless[:6]}')
         extra = set(rel.last_accessed) - set(rel.data)
         if extra or m['bookkeeping']:
             add('age_table_stale', 'last_accessed has entries that are not '
